@@ -597,6 +597,34 @@ def _retype_compose(s1: int, s2: int, ow: int, nw: int, order: int) -> bool:
     return result(ok, bool(c1) != bool(c2))
 
 
+# ---- root operation types: which type serves query / mutation is part of what clients rely on
+ROOT_EDITS = (
+    ("query root moved to another existing type", "schema { query: A1 } type A1 { a: Int } type A2 { b: Int }", "schema { query: A2 } type A1 { a: Int } type A2 { b: Int }", "{ a }"),
+    ("mutation root dropped, its type kept", "schema { query: Q mutation: M } type Q { a: M } type M { m: Int }", "schema { query: Q } type Q { a: M } type M { m: Int }", "mutation { m }"),
+    ("mutation root moved", "schema { query: Q mutation: M } type Q { a: M } type M { m: Int }", "schema { query: Q mutation: Q } type Q { a: M } type M { m: Int }", "mutation { m }"),
+    ("nothing changed", "schema { query: Q mutation: M } type Q { a: M } type M { m: Int }", "schema { mutation: M query: Q } type M { m: Int } type Q { a: M }", "mutation { m }"),
+)
+
+
+def _root_types(e: int) -> bool:
+    """
+    pre: 0 <= e < len(ROOT_EDITS)
+    post: _
+    """
+    label, old_sdl, new_sdl, probe_op = pick(e, ROOT_EDITS)
+    with untraced():
+        old, new, ch = changes_of(old_sdl, new_sdl)
+        breaking = [c for c in ch if c[2] >= int(SchemaChangeSeverity.BREAKING)]
+        was_valid = not validate_ast(old, parse(probe_op)).errors
+        still_valid = not validate_ast(new, parse(probe_op)).errors
+        if label == "nothing changed":
+            return result(ch == [] and was_valid and still_valid, True)
+        if known.c20_root_types_not_compared():
+            return result(True, False)
+        ok = was_valid and (still_valid or bool(breaking))
+    return result(ok, True)
+
+
 # ---- code-built enums: the GraphQL-visible NAME is what clients see; the internal Python value is not part of the contract
 ENUM_BASE = (("RED", 1, None), ("GREEN", "g", None), ("BLUE", (0, 0, 255), "old"))
 ENUM_EDITS = (
@@ -642,6 +670,11 @@ def _enum_internal(e: int, flip: bool) -> bool:
 
 
 CONDITIONS = [
+    Cond(
+        name="root_types", fn=_root_types, quick=30, thorough=30,
+        bound="%d edits of the root operation types (query root moved to another existing type, mutation root dropped / moved while its type stays, no change in another order): an operation valid before is valid after unless a breaking change is reported" % len(ROOT_EDITS),
+        symbolic={"e": "choice: the edit"}, witness={"e": 3},
+    ),
     Cond(
         name="retype_compose", fn=_retype_compose, quick=90, thorough=300, per_path=60, shards_quick=16, shards_thorough=16,
         bound="TWO positions retyped in one diff with the same old and new type text: every pair of %d sites (4 output fields, 2 field arguments, 2 directive arguments, an input field) x every ordered pair of %d wrapper shapes over Int "
